@@ -5,7 +5,11 @@ given in meta.json 'also'), undo it (git checkout -- .), and record which check 
 violation and through which obligation / native clause.  Never leaves /repo modified."""
 import json, os, re, subprocess, sys, time
 S = "/verif/seeded"
-ids = sys.argv[1:] or sorted(os.listdir(S))
+# --worktree: instead of patching /repo itself, apply the change to a scratch `git worktree` of /repo HEAD under /var/tmp and run the
+# check with --repo <worktree> (same code path: the VCs are regenerated from that tree, the native harness imports it).  Lets several
+# seeds be run side by side; the worktree is removed afterwards.  Without the flag /repo itself is patched and restored.
+WT = "--worktree" in sys.argv
+ids = [a for a in sys.argv[1:] if not a.startswith("--")] or sorted(os.listdir(S))
 for sid in ids:
     d = os.path.join(S, sid)
     mp = os.path.join(d, "meta.json")
@@ -15,15 +19,24 @@ for sid in ids:
     if meta.get("status") != "effective":
         continue
     patch = os.path.join(d, meta["patch"])
-    assert subprocess.run(["git", "-C", "/repo", "status", "--porcelain", "--untracked-files=no"], capture_output=True, text=True).stdout.strip() == "", "repo not clean"
-    r = subprocess.run(["git", "-C", "/repo", "apply", patch], capture_output=True, text=True)
+    tree = "/repo"
+    if WT:
+        tree = "/var/tmp/seedrun_wt_%s" % sid
+        subprocess.run(["git", "-C", "/repo", "worktree", "remove", "--force", tree], capture_output=True)
+        subprocess.run(["git", "-C", "/repo", "worktree", "add", "-q", "--detach", tree, "HEAD"], check=True)
+    else:
+        assert subprocess.run(["git", "-C", "/repo", "status", "--porcelain", "--untracked-files=no"], capture_output=True, text=True).stdout.strip() == "", "repo not clean"
+    r = subprocess.run(["git", "-C", tree, "apply", patch], capture_output=True, text=True)
     if r.returncode != 0:
-        print(sid, "PATCH DOES NOT APPLY"); continue
+        print(sid, "PATCH DOES NOT APPLY")
+        if WT:
+            subprocess.run(["git", "-C", "/repo", "worktree", "remove", "--force", tree])
+        continue
     results = {}
     try:
         for prop in [meta["property"]] + meta.get("also", []):
             t0 = time.time()
-            pr = subprocess.run(["./vcheck", prop, "--tier", "quick", "--no-evidence"], cwd="/verif", capture_output=True, text=True)
+            pr = subprocess.run(["./vcheck", prop, "--tier", "quick", "--no-evidence"] + (["--repo", tree] if WT else []), cwd="/verif", capture_output=True, text=True)
             out = pr.stdout
             vio = [l for l in out.splitlines() if l.startswith("VIOLATION")]
             und = [l.split()[1] for l in out.splitlines() if l.startswith("UNDISCHARGED")]
@@ -32,7 +45,10 @@ for sid in ids:
                              "first_violation": vio[0] if vio else None, "undischarged": und[:6], "out_of_reach": oor[:3],
                              "native_classes": sorted(set(re.sub(r".*replay=\S*/", "", l).replace(".json", "")[:90] for l in vio))[:4]}
     finally:
-        subprocess.run(["git", "-C", "/repo", "checkout", "--", "."], check=True)
+        if WT:
+            subprocess.run(["git", "-C", "/repo", "worktree", "remove", "--force", tree], check=True)
+        else:
+            subprocess.run(["git", "-C", "/repo", "checkout", "--", "."], check=True)
     meta["check_results"] = results
     meta["caught"] = any(v["exit"] == 1 for v in results.values())
     meta["checked_at_repo_head"] = subprocess.run(["git", "-C", "/repo", "rev-parse", "--short", "HEAD"], capture_output=True, text=True).stdout.strip()
